@@ -48,6 +48,15 @@ CHECKS = {
         note='Trusted: gcc 12 ASan/UBSan; leaks are not judged; the time clause is checked only by the coarse doubling rule (all three ratios > 3 and > 2 s).',
         technique='exhaustive short-input enumeration + exhaustive single-mutation enumeration on sanitizer builds of the real code',
         ref='3/C05'),
+    'C06': dict(
+        text='Bounded exhaustive enumeration on ASan+UBSan builds of check-express, exppp (also -l 10 / -l 99999), exp2cxx and exp2python: the generated valid '
+             'family and ALL shipped schemas; every single-fault mutant of C04; every byte of 3 (thorough 6) small schemas replaced by each of 12 bytes (NUL, 0x80, '
+             '0xFF, quotes, brackets ...), deleted, duplicated, and truncation at every offset; 25 pathological lexical shapes at boundary sizes (255..100000 '
+             'characters, nesting 2..100, parentheses to 10000, 99..1000 errors, CRLF, no final newline, NUL, BOM); doubling rule for bounded time. Oracle: no '
+             'sanitizer report, no signal, exit 0 or a small positive status with a diagnostic.',
+        note='Trusted: gcc 12 ASan/UBSan; leaks not judged; a timeout is re-run alone with 10x the limit before it is called a hang.',
+        technique='exhaustive single-mutation and boundary-shape enumeration on sanitizer builds of the real tools',
+        ref='3/C06'),
     'C09': dict(
         text='Classical exhaustive enumeration at the attribute seam: for each simple kind ALL strings up to length 4-5 (thorough 6-7) over the kind\'s '
              'alphabet plus boundary numerals, each in 6 delimiter contexts, are read by the real STEPattribute::STEPread (1.6 M reads in the quick tier) '
